@@ -205,7 +205,9 @@ let e_io body =
 let decode_program line =
   match Stdlib.String.split_on_char '\t' line with
   | [starts; pre] ->
-    let lib = [Stdlib.List.map (fun s -> n_of_int (int_of_string s)) (Stdlib.String.split_on_char ',' starts)] in
+    (* one list of line starts per file, files separated by ';' (file id = position) *)
+    let lib = Stdlib.List.map (fun f -> Stdlib.List.map (fun s -> n_of_int (int_of_string s)) (Stdlib.String.split_on_char ',' f))
+        (Stdlib.String.split_on_char ';' starts) in
     let defs = match parse_sx pre with L (A "prog" :: defs) -> defs | _ -> bad "prog" in
     let ts = Stdlib.List.filter_map (function L [A "T"; n; b] -> Some (d_name n, d_stmt b) | _ -> None) defs in
     let fs = Stdlib.List.filter_map (function L [A "F"; n; b] -> Some (d_name n, d_stmt b) | _ -> None) defs in
@@ -220,10 +222,14 @@ let show_result ts fs reports =
   let reps = Stdlib.List.sort compare (Stdlib.List.map e_report reports) in
   Printf.sprintf "POST\t(out%s%s)\tREP\t(reports%s)" t f (cat (Stdlib.List.map (fun r -> " " ^ r) reps))
 
+(* what the desugarer looks up for every parsed template (env_of = template_info_of of the PARSED body), kept or not *)
+let show_io ts =
+  "(io" ^ cat (Stdlib.List.map (fun (n, b) -> Printf.sprintf " (T %s %s)" (ostr n) (e_io b)) ts) ^ ")"
+
 let mirror_line line =
   let (lib, ts, fs) = decode_program line in
   match remove_syntactic_sugar lib ts fs with
-  | DOk d -> show_result d.d_templates d.d_functions d.d_reports
+  | DOk d -> show_result d.d_templates d.d_functions d.d_reports ^ "\tIO\t" ^ show_io ts
   | DErr _ -> "POST\tmodel-error\tREP\t-"
   | DPanic s -> Printf.sprintf "POST\tpanic\tREP\tsite %d" (int_of_z s)
   | DOutOfFuel -> "POST\toutoffuel\tREP\t-"
